@@ -22,7 +22,7 @@ def persist_lib_rs(tree):
     if a < 1 or b < 1:
         raise Inconclusive("persist.rs: no `use std::fs` / `use std::path` import to redirect")
     body = src.split("#[cfg(test)]")[0]
-    if re.search(r"OpenOptions|read_dir|tempfile|BufWriter|BufReader|std::io::", body):
+    if re.search(r"OpenOptions|read_dir|tempfile|BufReader|std::io::", body):
         raise Inconclusive("persist.rs uses file-system / io API outside the modelled set")
     open(p, "w").write(src)
     fmt = open(os.path.join(tree, "src/snapshot/format.rs")).read()
@@ -71,6 +71,13 @@ def plan(tier):
             gen.append("vk_proof! {\n" + ATTR % 14 + "fn %s() { crash_history(%d, %s); }\n}\n" % (fn, k, "true" if pl else "false"))
             p.add(MOD, H(fn, {"imports": k, "crash_in": "last import, at a symbolic file-system call",
                               "restart_after": "power loss (symbolic survival bits)" if pl else "process crash"}, "crash"))
+    for k in ks:
+        for pl in (0, 1):
+            fn = "c14_retry_k%d_%s" % (k, "powerloss" if pl else "processcrash")
+            gen.append("vk_proof! {\n" + ATTR % 14 + "fn %s() { crash_then_retry(%d, %s); }\n}\n" % (fn, k, "true" if pl else "false"))
+            p.add(MOD, H(fn, {"imports": k, "crash_in": "last import, at a symbolic file-system call", "then": "restart, the client "
+                              "retries the same import (acknowledged), restart again",
+                              "restart_after": "power loss (symbolic survival bits)" if pl else "process crash"}, "retry"))
     fn = "c14_clean_k%d" % max(ks)
     gen.append("vk_proof! {\n" + ATTR % 14 + "fn %s() { clean_history(%d); }\n}\n" % (fn, max(ks)))
     p.add(MOD, H(fn, {"imports": max(ks), "restart": "clean, after every import"}, "clean"))
